@@ -1,0 +1,42 @@
+//go:build verif
+
+// Contracts for the verifier in /verif (comment-only; compiled only with -tags verif).
+
+package tss
+
+// ----- curve.go -----
+// The registry holds exactly the two curves installed by init() unless the
+// application calls RegisterCurve (assumption A-registry, listed in evidence).
+
+//@ func GetCurveName
+//@   props C17 C06
+//@   trusted reflection over the curve registry (reflect.TypeOf, map iteration); contract from reading curve.go
+//@   ensures result1 <==> (issecp(curve) || isedw(curve))
+//@   ensures issecp(curve) ==> result0 == "secp256k1"
+//@   ensures isedw(curve) ==> result0 == "ed25519"
+//@   ensures !result1 ==> result0 == ""
+
+//@ func GetCurveByName
+//@   props C17 C06
+//@   trusted map lookup in the curve registry; contract from reading curve.go
+//@   ensures result1 <==> (name == "secp256k1" || name == "ed25519")
+//@   ensures name == "secp256k1" ==> (result0 != nil && issecp(result0))
+//@   ensures name == "ed25519" ==> (result0 != nil && isedw(result0))
+//@   ensures !result1 ==> result0 == nil
+
+//@ func SameCurve
+//@   props C17 C06
+//@   ensures [C17.same-registered-curve] result <==> ((issecp(lhs) && issecp(rhs)) || (isedw(lhs) && isedw(rhs)))
+
+//@ func EC
+//@   props C06
+//@   trusted reads the package-level default curve (set by init or SetCurve)
+//@   ensures result != nil && (issecp(result) || isedw(result))
+
+//@ func S256
+//@   props C06 C17
+//@   ensures result != nil && issecp(result)
+
+//@ func Edwards
+//@   props C06 C17
+//@   ensures result != nil && isedw(result)
